@@ -504,6 +504,11 @@ static ShortInt DecodeAdr(tStrComp const* pArg, Word Mask, tAdrResult* pResult) 
                 goto AdrFound;
             }
         }
+
+        /* the operand is indirect, but its displacement could not be evaluated
+           (error already reported): do not re-interpret it as an absolute address */
+
+        goto AdrFound;
     }
 
     /* OK, nothing but absolute left...exclamation mark enforces 16-bit addressing,
